@@ -333,6 +333,22 @@ class Named(Sub):
                 out.fail(sig + 'get-order', 'reading M[%r,%r] does not return the assigned pair function' % (x, y))
         if not np.array_equal(M.get(i, j), exp[:, i, j]) or not np.array_equal(M.getMatrix(0), exp[0]):
             out.fail(sig + 'index-getters', 'get(i,j)/getMatrix disagree with the data')
+        # index setters: setMatrix(l, m) replaces exactly matrix l (copying m), leaves the others and the caller's m alone
+        l_ = (spec['i'] * 7 + spec['j']) % L
+        mnew = rnd((val['seed'] if isinstance(val, dict) else 1) + 5, (R, R))
+        mnew = mnew + mnew.T
+        m_keep = mnew.copy()
+        exp2 = M.data.copy()
+        exp2[l_] = mnew
+        M.setMatrix(l_, mnew)
+        if not np.array_equal(M.data, exp2):
+            out.fail(sig + 'setMatrix', 'setMatrix(%d, m) did not replace exactly matrix %d' % (l_, l_))
+        mnew += 1.0
+        if not np.array_equal(M.data, exp2) or np.shares_memory(M.data, mnew):
+            out.fail(sig + 'setMatrix-aliases-caller', 'a later change of the caller\'s matrix leaked into the MatrixArray after setMatrix')
+        if not np.array_equal(M.getMatrix(l_), m_keep):
+            out.fail(sig + 'index-getters', 'getMatrix does not return what setMatrix stored')
+        M.setMatrix(l_, exp[l_])
         # iterpairs visits the upper triangle in order with views of the data
         seen = [(ij, t) for ij, t, pair in M.iterpairs()]
         want = [((p, q), (names[p], names[q])) for p in range(R) for q in range(R) if p <= q]
